@@ -183,7 +183,7 @@ func fixturesFor(seed uint64) *Fix {
 func runOnce(f *Fix, ep *Episode, plan *simsched.Plan, nsites int, wantCounts bool) *runOut {
 	n := len(ep.Tasks)
 	priv := make([]*xmss.XMSS, n)
-	for t := 0; t < n; t++ {
+	for t := 0; t < n && len(f.Priv) > 0; t++ { // no private keys in cold episodes
 		priv[t] = f.Priv[t].VerifClone()
 	}
 	entropy.reset(ep.EntSeed)
@@ -509,6 +509,7 @@ type ReplayFile struct {
 	TreeHash        string         `json:"tree_hash"`
 	SiteTable       string         `json:"site_table_hash"`
 	Race            bool           `json:"race_build"`
+	Cold            bool           `json:"cold_start,omitempty"`
 	Minimised       bool           `json:"minimised"`
 	Episode         *Episode       `json:"episode"`
 	Plan            *simsched.Plan `json:"plan"`
@@ -580,6 +581,18 @@ func main() {
 		worker(os.Args[2], seed, w, nw, dl, os.Args[7], ne, k)
 	case "replay-raw":
 		replayRaw(os.Args[2], os.Args[3])
+	case "fixgen":
+		seed, _ := strconv.ParseUint(os.Args[2], 10, 64)
+		rand.Reader = entropy
+		entropy.reset(seed)
+		b, _ := json.Marshal(buildFixtures(seed).data())
+		if err := os.WriteFile(os.Args[3], b, 0o644); err != nil {
+			fail2("%v", err)
+		}
+	case "cold-ref":
+		coldRef(os.Args[2], os.Args[3], os.Args[4])
+	case "cold-run":
+		coldRun(os.Args[2], os.Args[3], os.Args[4], os.Args[5], os.Args[6])
 	case "check":
 		os.Exit(check(os.Args[2]))
 	case "replay":
